@@ -249,6 +249,9 @@ const BIT_REVERSE_6BIT: &[u8] = &[
 
 #[inline(always)]
 pub fn assume(p: bool) {
+    // Verification hook: a violated assumption is a panic instead of undefined behaviour.
+    #[cfg(plonky2_verif)]
+    assert!(p, "plonky2_verif: violated assume");
     debug_assert!(p);
     if !p {
         unsafe {
